@@ -89,7 +89,7 @@ package engine
 // sockOK: what MakeSocket establishes; sockLive: what holds from Construct on (a transport is attached and the
 // heartbeat mode of the session agrees with the protocol revision of its transport).
 //@ spec sockOK(s *socket) bool = s != nil && s.EventEmitter != nil && s.writeBuffer != nil && s.packetsFn != nil && s.sentCallbackFn != nil && s.cleanupFn != nil
-//@ spec sockLive(s *socket) bool = sockOK(s) && s.server != nil && s.Transport() != nil
+//@ spec sockLive(s *socket) bool = sockOK(s) && s.server != nil && s.Transport() != nil && iface(s.server) != iface(s.EventEmitter)
 // Thin contracts used at call sites; each function is verified against its own clauses below.
 
 //@ func (*socket).onError(err)
@@ -103,18 +103,18 @@ package engine
 //@   ensures [C03.oneclose]    !wasClosed ==> emitted(s.EventEmitter, "close") == 1
 //@   ensures [C03.timers,C07.cleared] !wasClosed ==> calls(utils.ClearTimeout) >= 2
 //@   ensures [C18.dropped]     !wasClosed ==> calls((*types.Slice).Clear) >= 2
-//@   callsite EventEmitter.Emit#1
-//@     assert [C03.closedfirst] s.ReadyState() == "closed" && $evt == "close" && len($args) == 2 && $args[0] == iface(reason)
+//@   callsite types.EventEmitter.Emit#1
+//@     assert [C03.closedfirst] s.ReadyState() == "closed" && $evt == "close" && len($args) == 2 && $args[0] == iface(old(reason))
 //@   callsite (*socket).clearTransport#1
 //@     assert [C03.closedbeforeclear] s.ReadyState() == "closed"
 
 //@ func (*socket).clearTransport()
+//@   props C03, C08
+//@   requires sockLive(s)
 //@   modifies *
-//@ func (*socket).closeTransport(discard)
-//@   modifies *
+//@   ensures [C03.clearkeeps] s.ReadyState() == old(s.ReadyState())
+//@   ensures [C08.clearcloses] calls(transports.Transport.Close) == 1 && calls(utils.ClearTimeout) == 1
 //@ func (*socket).setTransport(transport)
-//@   modifies *
-//@ func (*socket).flush()
 //@   modifies *
 //@ func (*socket).resetPingTimeout()
 //@   modifies *
@@ -134,7 +134,7 @@ package engine
 //@   let rs = old(s.ReadyState())
 //@   ensures [C03.sendafterclose,C01.discard] rs == "closing" || rs == "closed" ==> nevents() == 0
 //@   ensures [C01.accept] rs != "closing" && rs != "closed" ==> calls((*types.Slice).Push) >= 1 && emitted(s.EventEmitter, "packetCreate") == 1 && calls((*socket).flush) == 1
-//@   ensures [C18.packetCreateFirst] rs != "closing" && rs != "closed" ==> before(EventEmitter.Emit, 1, (*types.Slice).Push, 1) && before((*types.Slice).Push, 1, (*socket).flush, 1)
+//@   ensures [C18.packetCreateFirst] rs != "closing" && rs != "closed" ==> before(types.EventEmitter.Emit, 1, (*types.Slice).Push, 1) && before((*types.Slice).Push, 1, (*socket).flush, 1)
 //@   callsite (*types.Slice).Push#1
 //@     assert [C01.tailpush] $s == s.writeBuffer && len($elements) == 1 && $elements[0].Type == packetType && $elements[0].Data == data && $elements[0].Options != nil
 //@     assert [C01.defaultopts] options == nil ==> $elements[0].Options.Compress
@@ -161,3 +161,75 @@ package engine
 //@   ensures [C02.message]    open && ptype == packet.MESSAGE ==> emitted(s.EventEmitter, "data") == 1 && emitted(s.EventEmitter, "message") == 1 && nevents() == 3
 //@   ensures [C02.parseerror,C03.parse] open && ptype == packet.ERROR ==> calls((*socket).OnClose) == 1 && arg((*socket).OnClose, 1, reason) == "parse error"
 //@   ensures [C02.onlymessage] ptype != packet.MESSAGE ==> emitted(s.EventEmitter, "message") == 0 && emitted(s.EventEmitter, "data") == 0
+
+//@ func (*socket).SetReadyState(state)
+//@   requires s != nil
+//@   modifies s.readyState
+//@   ensures s.ReadyState() == state
+
+//@ func MakeSocket()
+//@   props C03
+//@   modifies nothing
+//@   ensures [C03.opening] typeis(result, *socket) && sockOK(unbox(result, *socket)) && unbox(result, *socket).ReadyState() == "opening" && fresh(unbox(result, *socket))
+
+//@ func (*socket).Close(discard)
+//@   props C03, C12
+//@   requires sockLive(s)
+//@   modifies *
+//@   let rs  = old(s.ReadyState())
+//@   let now = discard && (rs == "open" || rs == "closing")
+//@   let buffered = old(len(s.writeBuffer.elements)) > 0
+//@   ensures [C12.discard]   now ==> calls((*socket).closeTransport) == 1 && arg((*socket).closeTransport, 1, discard) && calls((*socket).SetReadyState) == 0
+//@   ensures [C03.closeonlyopen] !now && rs != "open" ==> nevents() == 0
+//@   ensures [C03.closing,C12.closing] !now && rs == "open" ==> calls((*socket).SetReadyState) == 1 && arg((*socket).SetReadyState, 1, state) == "closing"
+//@   ensures [C12.bufferedfirst] !now && rs == "open" && buffered ==> calls((*socket).closeTransport) == 0 && ncalls(types.EventEmitter.Once, evt == "drain") == 1
+//@   ensures [C12.emptynow]  !now && rs == "open" && !buffered ==> calls((*socket).closeTransport) == 1 && !arg((*socket).closeTransport, 1, discard)
+
+//@ func (*socket).Close$1()
+//@   props C12
+//@   requires sockLive(s)
+//@   modifies *
+//@   ensures [C12.ondrain] calls((*socket).closeTransport) == 1
+
+//@ func (*socket).closeTransport(discard)
+//@   props C12, C03
+//@   requires sockLive(s)
+//@   modifies *
+//@   ensures [C12.ctclose]   calls(transports.Transport.Close) == 1 && len(arg(transports.Transport.Close, 1, fn)) == 1
+//@   ensures [C12.ctdiscard] (discard ==> calls(transports.Transport.Discard) == 1 && before(transports.Transport.Discard, 1, transports.Transport.Close, 1)) && (!discard ==> calls(transports.Transport.Discard) == 0)
+
+//@ func (*socket).closeTransport$1()
+//@   props C12, C03
+//@   requires sockLive(s)
+//@   modifies *
+//@   ensures [C12.forcedclose,C03.forced] calls((*socket).OnClose) == 1 && arg((*socket).OnClose, 1, reason) == "forced close"
+
+//@ func (*socket).flush()
+//@   props C01, C18, C03
+//@   requires sockLive(s)
+//@   assumes heldmode(s.flushMu) == 0
+//@   modifies *
+//@   let closed   = old(s.ReadyState()) == "closed"
+//@   let writable = old(s.Transport().Writable())
+//@   let pending  = old(len(s.writeBuffer.elements)) > 0
+//@   ensures [C03.flushclosed] closed ==> nevents() == 0
+//@   ensures [C01.gate]    !(!closed && writable && pending) ==> calls(transports.Transport.Send) == 0 && emitted(s.EventEmitter, "flush") == 0 && emitted(s.EventEmitter, "drain") == 0
+//@   ensures [C01.handoff] !closed && writable && pending ==> calls(transports.Transport.Send) == 1 && arg(transports.Transport.Send, 1, packets) == ret((*types.Slice).AllAndClear, 1)
+//@   ensures [C18.events]  !closed && writable && pending ==> emitted(s.EventEmitter, "flush") == 1 && emitted(s.EventEmitter, "drain") == 1 && emitted(s.server, "flush") == 1 && emitted(s.server, "drain") == 1
+//@   ensures [C18.order]   !closed && writable && pending ==> before(types.EventEmitter.Emit, 2, transports.Transport.Send, 1) && before(transports.Transport.Send, 1, types.EventEmitter.Emit, 3)
+//@   ensures [C18.group]   !closed && writable && pending ==> calls((*types.Slice).Push) == 1 && before(types.EventEmitter.Emit, 2, (*types.Slice).Push, 1) && before((*types.Slice).Push, 1, transports.Transport.Send, 1)
+//@   ensures [C18.unlock]  heldmode(s.flushMu) == 0
+//@   callsite types.EventEmitter.Emit#1
+//@     assert [C18.flushbatch] $evt == "flush" && len($args) == 1
+//@   callsite types.EventEmitter.Emit
+//@     assert [C18.noemitunderlock] !held(s.flushMu)
+
+//@ func (*socket).onDrain()
+//@   props C18
+//@   requires sockLive(s)
+//@   dyncall fn noeffect
+//@   modifies *
+//@   loop 1 invariant calls(fn) == $i
+//@   ensures [C18.onegroup] calls((*types.Slice).Shift) == 1
+//@   ensures [C18.cbonce]   ret((*types.Slice).Shift, 1, 1) == nil ==> calls(fn) == len(ret((*types.Slice).Shift, 1, 0))
+//@   ensures [C18.nogroup]  ret((*types.Slice).Shift, 1, 1) != nil ==> calls(fn) == 0
